@@ -116,7 +116,7 @@ func Check() *core.Check {
 			if tier == "thorough" {
 				return len(catalogue) + 400000
 			}
-			return len(catalogue) + 20000
+			return len(catalogue) + 15000
 		},
 		MinConclusive: func(tier string) int { return 2000 },
 		NumPinned:     len(pinned),
